@@ -15,3 +15,7 @@ mod c07;
 mod c10;
 #[cfg(kani)]
 mod c12;
+#[cfg(kani)]
+mod c14;
+#[cfg(all(kani, feature = "specialized"))]
+mod c17;
